@@ -280,7 +280,8 @@ def mon_C20_dictexpr(s):
             break
     if target is None:
         return []
-    val = {"port": e, "tag": "x"}
+    # mixed case in keys and values: the inline form must not normalise what it decodes
+    val = {"Port": e, "Tag": "X-Prod", "tag": "x"}
     long2 = json.loads(json.dumps(long_spec))
     t = long2["tasks"][target]
     inp = t.get("input")
